@@ -151,8 +151,9 @@ def stage1(scratch, module, constants, invariants, simulate=None, seed=0, timeou
 def stage2(scratch, exe, beh, nslots, variant=0, extra_args=()):
     trace = os.path.join(scratch, "trace.ndjson")
     t0 = time.time()
+    env = dict(os.environ, GORACE="log_path=%s halt_on_error=0" % os.path.join(scratch, "racelog"))
     r = run([exe, "-in", beh, "-out", trace, "-slots", str(nslots), "-variant", str(variant)] + list(extra_args),
-            timeout=3600)
+            timeout=3600, env=env)
     if r.returncode != 0:
         raise Infra("stage 2 (harness) failed rc=%s:\n%s" % (r.returncode, r.stdout[-3000:]))
     return trace, dict(wall_s=round(time.time() - t0, 1))
